@@ -341,6 +341,22 @@ func TestVerifC05Parse(t *testing.T) {
 	}
 }
 
+// c05JobOf: the job id a line announces when it has the outline of a mining.notify (whatever else is wrong with it)
+func c05JobOf(hexLine string) string {
+	var m struct {
+		Method string            `json:"method"`
+		Params []json.RawMessage `json:"params"`
+	}
+	if json.Unmarshal(c14Unhex(hexLine), &m) != nil || m.Method != "mining.notify" || len(m.Params) == 0 {
+		return ""
+	}
+	var id string
+	if json.Unmarshal(m.Params[0], &id) != nil || id == "" || strings.ContainsAny(id, " \t\n") {
+		return ""
+	}
+	return id
+}
+
 // phases: how a hostile line is placed into a history
 func c05Phase(phase int, hexLine string) (kind string, ops []string) {
 	pools := []string{"cfg maxcached=2 vr=1 user=acct.rig7 notprop=0 vetting=0",
@@ -351,10 +367,18 @@ func c05Phase(phase int, hexLine string) (kind string, ops []string) {
 	switch phase {
 	case 0: // mining, from the miner
 		return "sess", append(pools, "start", "mraw "+hexLine, probe(21, "pa-j1"), "notify pa j2 t0 0", probe(22, "j2"))
-	case 1: // mining, from the active pool
-		return "sess", append(pools, "start", "praw pa "+hexLine, probe(21, "pa-j1"), "notify pa j2 t0 0", probe(22, "j2"))
+	case 1: // mining, from the active pool; a line that announces a job is followed by a share (with version bits) for that job
+		ops := append(pools, "start", "praw pa "+hexLine)
+		if j := c05JobOf(hexLine); j != "" {
+			ops = append(ops, probe(20, j))
+		}
+		return "sess", append(ops, probe(21, "pa-j1"), "notify pa j2 t0 0", probe(22, "j2"))
 	case 2: // mining, from a parked pool; then back to it
-		return "sess", append(pools, "start", "setdest pb cb", "praw pa "+hexLine, probe(21, "pb-j1"), "setdest pa cb", probe(22, "pa-j1"), "notify pa j2 t0 0", probe(23, "j2"))
+		ops := append(pools, "start", "setdest pb cb", "praw pa "+hexLine, probe(21, "pb-j1"), "setdest pa cb")
+		if j := c05JobOf(hexLine); j != "" {
+			ops = append(ops, probe(20, j))
+		}
+		return "sess", append(ops, probe(22, "pa-j1"), "notify pa j2 t0 0", probe(23, "j2"))
 	case 3: // first line of a connection
 		return "hs", []string{"cfg notprop=0", "pool pa reach=1", "conn 0", "conn 1", "m 0 raw " + hexLine, "m 0 subscribe 2", "p 0 subres 2 ffee 4", "m 0 authorize 3 acct.rig7", "p 0 res 3 ok",
 			"m 1 subscribe 2", "p 1 subres 2 ffee 4", "m 1 authorize 3 acct.rig7", "p 1 res 3 ok"}
@@ -441,7 +465,10 @@ func TestVerifC05Session(t *testing.T) {
 	for li, l := range lines {
 		for phase := 0; phase < 6; phase++ {
 			n++
-			if n <= skip || (li+phase)%stride != 0 {
+			// shares from a mining miner and job announcements from the active pool are where a bad field travels furthest (into the
+			// share validator and the job cache): those lines are never thinned out
+			always := (phase == 0 && strings.Contains(l, `"method":"mining.submit"`)) || (phase == 1 && strings.Contains(l, `"method":"mining.notify"`))
+			if n <= skip || ((li+phase)%stride != 0 && !always) {
 				continue
 			}
 			kind, ops := c05Phase(phase, c14Hex([]byte(l)))
